@@ -58,9 +58,17 @@ pub fn issuer_chain(ders: &[Vec<u8>]) -> Option<ResourceCert> {
     rc
 }
 
+/// evaluation instants with a fraction of a second (what `Time::now()` gives): `<seconds>+h` is half a second later
+fn time_tok(t: &str) -> Option<Time> {
+    match t.strip_suffix("+h") {
+        Some(s) => Some(Time::new(Utc.timestamp_opt(s.parse().ok()?, 500_000_000).single()?)),
+        None => Some(time(t.parse().ok()?)),
+    }
+}
+
 pub fn exec(toks: &[&str]) -> String {
     if toks.len() < 5 || toks[0] != "v" { return "bad-op".into() }
-    let Ok(now) = toks[1].parse::<i64>() else { return "bad-op".into() };
+    let Some(now_t) = time_tok(toks[1]) else { return "bad-op".into() };
     let kind = toks[2];
     let Some(bar) = toks.iter().position(|t| *t == "|") else { return "bad-op".into() };
     let ders: Option<Vec<Vec<u8>>> = toks[bar + 1..].iter().map(|h| unhex(h)).collect();
@@ -73,9 +81,9 @@ pub fn exec(toks: &[&str]) -> String {
     fn alt(main_ok: bool, other_ok: bool, name: &str) -> String { if main_ok != other_ok { format!(" ALT={}", name) } else { String::new() } }
     if kind == "ta" {
         let tal = || TalInfo::from_name("t".into()).into_arc();
-        let two = cert.inspect_ta(true).is_ok() && cert.clone().verify_ta_at(tal(), true, time(now)).is_ok();
-        let by_ref = cert.inspect_ta(true).is_ok() && cert.verify_ta_ref_at(true, time(now)).is_ok();
-        let main = cert.validate_ta_at(tal(), true, time(now));
+        let two = cert.inspect_ta(true).is_ok() && cert.clone().verify_ta_at(tal(), true, now_t).is_ok();
+        let by_ref = cert.inspect_ta(true).is_ok() && cert.verify_ta_ref_at(true, now_t).is_ok();
+        let main = cert.validate_ta_at(tal(), true, now_t);
         let extra = format!("{}{}", alt(main.is_ok(), two, "inspect_ta+verify_ta_at"), alt(main.is_ok(), by_ref, "inspect_ta+verify_ta_ref_at"));
         return match main {
             Ok(rc) => format!("{}{}", show_rc(&rc), extra),
@@ -85,20 +93,20 @@ pub fn exec(toks: &[&str]) -> String {
     let Some(issuer) = issuer_chain(issuers) else { return "issuer-invalid".into() };
     match kind {
         "ca" => {
-            let two = cert.inspect_ca(true).is_ok() && cert.clone().verify_ca_at(&issuer, true, time(now)).is_ok();
-            match cert.validate_ca_at(&issuer, true, time(now)) { Ok(rc) => format!("{}{}", show_rc(&rc), alt(true, two, "inspect_ca+verify_ca_at")), Err(_) => format!("err{}", alt(false, two, "inspect_ca+verify_ca_at")) }
+            let two = cert.inspect_ca(true).is_ok() && cert.clone().verify_ca_at(&issuer, true, now_t).is_ok();
+            match cert.validate_ca_at(&issuer, true, now_t) { Ok(rc) => format!("{}{}", show_rc(&rc), alt(true, two, "inspect_ca+verify_ca_at")), Err(_) => format!("err{}", alt(false, two, "inspect_ca+verify_ca_at")) }
         }
         "ee" => {
-            let two = cert.inspect_ee(true).is_ok() && cert.clone().verify_ee_at(&issuer, true, time(now)).is_ok();
-            match cert.validate_ee_at(&issuer, true, time(now)) { Ok(rc) => format!("{}{}", show_rc(&rc), alt(true, two, "inspect_ee+verify_ee_at")), Err(_) => format!("err{}", alt(false, two, "inspect_ee+verify_ee_at")) }
+            let two = cert.inspect_ee(true).is_ok() && cert.clone().verify_ee_at(&issuer, true, now_t).is_ok();
+            match cert.validate_ee_at(&issuer, true, now_t) { Ok(rc) => format!("{}{}", show_rc(&rc), alt(true, two, "inspect_ee+verify_ee_at")), Err(_) => format!("err{}", alt(false, two, "inspect_ee+verify_ee_at")) }
         }
         "dee" => {
-            let two = cert.inspect_detached_ee(true).is_ok() && cert.clone().verify_ee_at(&issuer, true, time(now)).is_ok();
-            match cert.validate_detached_ee_at(&issuer, true, time(now)) { Ok(rc) => format!("{}{}", show_rc(&rc), alt(true, two, "inspect_detached_ee+verify_ee_at")), Err(_) => format!("err{}", alt(false, two, "inspect_detached_ee+verify_ee_at")) }
+            let two = cert.inspect_detached_ee(true).is_ok() && cert.clone().verify_ee_at(&issuer, true, now_t).is_ok();
+            match cert.validate_detached_ee_at(&issuer, true, now_t) { Ok(rc) => format!("{}{}", show_rc(&rc), alt(true, two, "inspect_detached_ee+verify_ee_at")), Err(_) => format!("err{}", alt(false, two, "inspect_detached_ee+verify_ee_at")) }
         }
         "rt" => {
-            let two = cert.inspect_router(true).is_ok() && cert.verify_router_at(&issuer, true, time(now)).is_ok();
-            match cert.validate_router_at(&issuer, true, time(now)) { Ok(()) => format!("ok{}", alt(true, two, "inspect_router+verify_router_at")), Err(_) => format!("err{}", alt(false, two, "inspect_router+verify_router_at")) }
+            let two = cert.inspect_router(true).is_ok() && cert.verify_router_at(&issuer, true, now_t).is_ok();
+            match cert.validate_router_at(&issuer, true, now_t) { Ok(()) => format!("ok{}", alt(true, two, "inspect_router+verify_router_at")), Err(_) => format!("err{}", alt(false, two, "inspect_router+verify_router_at")) }
         }
         _ => "bad-op".into(),
     }
@@ -348,7 +356,9 @@ pub fn generate(ctx: &mut Ctx) {
                 Kind::Ee => if rng.chance(1, 6) { "dee" } else { "ee" }, Kind::Router => "rt" };
             ders.push(der);
             fs.push(facts(&spec, sig, dec, &kid));
-            ctx.case(&format!("v {} {} {} | {}", now, kind, fs.join(" "),
+            // half of the window-edge cases are evaluated half a second later (an instant no encoding carries)
+            let now_s = if rng.chance(1, 3) { format!("{}+h", now) } else { now.to_string() };
+            ctx.case(&format!("v {} {} {} | {}", now_s, kind, fs.join(" "),
                 ders.iter().map(|d| hex(d)).collect::<Vec<_>>().join(" ")));
         }
     }
